@@ -456,6 +456,7 @@ func (s *Scanner) peekEqual(n int, ch rune) int {
 }
 
 func (s *Scanner) Scan() SyntaxKind {
+	verifScanHook(s)
 	s.startPos = s.pos
 	s.tokenFlags = TF_None
 	for {
